@@ -115,6 +115,8 @@ def mk_case(i, mode, c, rnd, nseeds, **kw):
          "sched_prob": rnd.choice([15, 35, 60]), "sched_max_us": rnd.choice([50, 200, 600]),
          "budget_s": 12}        # watchdog per execution (a normal execution takes milliseconds)
     d.update(kw)
+    if "qin" in kw or "qout" in kw:
+        cfg["maxIn"], cfg["maxOut"] = d["qin"], d["qout"]
     return d
 
 
